@@ -218,6 +218,23 @@ class Ctx:
         self.decisions.append(d)
         return d
 
+    def split(self, conds: list, label: str = '') -> int:
+        """Case split on a list of conditions (all feasible alternatives are explored; the chosen one
+        is assumed).  The caller is responsible for the conditions being exhaustive."""
+        if self.cursor < len(self.prefix):
+            d = self.prefix[self.cursor]
+        else:
+            feas = [i for i, c in enumerate(conds) if self.feasible(c)]
+            if not feas:
+                raise PathAbort()
+            for alt in feas[1:]:
+                self.ex.push(self.decisions + [alt])
+            d = feas[0]
+        self.cursor += 1
+        self.decisions.append(d)
+        self.assume(conds[d])
+        return d
+
     # --- obligations ------------------------------------------------------
     def prove(self, name: str, f, detail: str = '') -> bool:
         """Named proof obligation: pc => f."""
